@@ -105,8 +105,10 @@ class Ob:
 
 def path_script(p):
     """Accept/reject pattern and callback flags of a body path, for the scripted native replay."""
+    if not hasattr(p, "events") or not hasattr(p, "rec"):
+        return {}
     flags = "".join({"Continue": "C", "Interrupt": "I", "ModifiedSolution": "M", "XOut": "X"}[e[2]] for e in p.events if e[0] == "flag")
-    return {"accepted": len(p.rec.callbacks) > 0, "flags": flags, "status": S.status_of(p.outcome), "exit": p.exit,
+    return {"accepted": len(p.rec.callbacks) > 0, "flags": flags, "status": S.status_of(p.outcome), "exit": getattr(p, "exit", None),
             "odes": len(p.rec.ode_calls)}
 
 
@@ -414,4 +416,60 @@ def c11_budget(method, backward=False):
                          replay_fn=lambda f: replay.script_replay(method, backward, f, "budget"))
 
     unit.__name__ = f"c11_budget_{method.lower()}" + ("_back" if backward else "")
+    return unit
+
+
+# ============================================================================== C04 underflow guard (R, DOPRI family)
+def c04_guard(method, backward=False):
+    """From a loop-head state whose step is below the resolution of x (0.1|h| <= |x| * 2^-53), every
+    path ends the run at once with a non-success status and without evaluating the right-hand side."""
+
+    def unit(tier="quick", seed=0):
+        t0 = time.time()
+        ob = Ob(f"c04_guard_{method.lower()}" + ("_back" if backward else ""))
+        paths, gen_s = paths_for(method, "body", backward, True, flags_symbolic=False, tiny_step=True)
+        ob.paths = len(paths)
+        for p in paths:
+            st = S.status_of(p.outcome)
+            ob.check(p, st in ("StepSizeTooSmall", "NeedLargerNMax"), f"{method}: a step below the resolution of x does not end the run (outcome {st or p.outcome[1]})")
+            ob.check(p, not p.rec.ode_calls and not p.rec.callbacks, f"{method}: evaluations or callbacks with a step below the resolution of x")
+        ob.check(paths[0], any(S.status_of(p.outcome) == "StepSizeTooSmall" for p in paths), f"{method}: StepSizeTooSmall is never reported")
+        return ob.result(t0, {"functions": [f"{method}::solve loop head (underflow guard)"], "bounds": f"{len(paths)} paths", "path_generation_s": round(gen_s, 1)})
+
+    unit.__name__ = f"c04_guard_{method.lower()}" + ("_back" if backward else "")
+    return unit
+
+
+# ============================================================================== C06 interpolant handed to the callback
+def c06_interp_span(method, backward=False):
+    """The interpolant of an accepted step covers exactly that step, bit-for-bit: its left end is the
+    callback's xold, and the callback's x IS fl(xold + h) of the interpolant's own (xold, h) -- so the
+    span recomputed later from the stored segment (cont.rs t_span) reproduces the reported time."""
+
+    def unit(tier="quick", seed=0):
+        t0 = time.time()
+        ob = Ob(f"c06_interp_span_{method.lower()}" + ("_back" if backward else ""))
+        paths, gen_s = paths_for(method, "body", backward, True, flags_symbolic=False)
+        ob.paths = len(paths)
+        n_ip = 0
+        for p in paths:
+            for cb in p.rec.callbacks:
+                ip = cb["interp"]
+                if not (isinstance(ip, REnum) and ip.name == "Some"):
+                    ob.check(p, False, f"{method}: accepted step handed to the callback without an interpolant (dense output on)")
+                    continue
+                n_ip += 1
+                f = ip.payload[0].f
+                ob.check(p, f["xold"].t.eq(cb["xold"].t), f"{method}: interpolant's left end is not the callback's xold (bit-for-bit)")
+                want = f["xold"].t + f["h"].t
+                ok = any(r.eq(cb["x"].t) and e.eq(want) for (r, e) in p.dom.rounded)
+                ob.check(p, ok, f"{method}: the reported x is not fl(xold + h) of its interpolant: the dense span end and the reported time can differ by a rounding error")
+                if len(ob.samples) < 2:
+                    ob.samples.append({"path": p.label(), "x": str(cb["x"].t), "interp": [str(f["xold"].t), str(f["h"].t)]})
+        ob.check(paths[0], n_ip > 0, f"{method}: no path hands an interpolant to the callback")
+        return ob.result(t0, {"functions": [f"{method}::solve accepted-step tail"], "bounds": f"{len(paths)} body paths; term identity (bit-for-bit) facts",
+                              "path_generation_s": round(gen_s, 1)},
+                         replay_fn=lambda fl: replay.span_replay(method, backward))
+
+    unit.__name__ = f"c06_interp_span_{method.lower()}" + ("_back" if backward else "")
     return unit
